@@ -131,6 +131,9 @@ func (c ConditionFunction) Evaluate(a interface{}, b interface{}) (bool, error) 
 		return !reflect.DeepEqual(a, b), nil
 	case ConditionIncludes:
 		switch x.Kind() {
+		case reflect.Ptr:
+			// an optional column is a set of at most one element
+			return y.IsNil() || (!x.IsNil() && reflect.DeepEqual(a, b)), nil
 		case reflect.Slice:
 			return sliceContains(x, y), nil
 		case reflect.Map:
@@ -142,6 +145,8 @@ func (c ConditionFunction) Evaluate(a interface{}, b interface{}) (bool, error) 
 		}
 	case ConditionExcludes:
 		switch x.Kind() {
+		case reflect.Ptr:
+			return y.IsNil() || x.IsNil() || !reflect.DeepEqual(a, b), nil
 		case reflect.Slice:
 			return sliceExcludes(x, y), nil
 		case reflect.Map:
